@@ -141,8 +141,7 @@ Definition prompt (clk : clock) : Prop :=
   0 <= t_auth clk /\ t_auth clk <= t_until clk /\ t_until clk <= t_gen clk /\
   t_gen clk - t_auth clk < 999500000.
 
-(* harness helper: both extreme clocks of a login bracketed by the readings t0 <= t1 taken
-   by the driver before and after the dispatch *)
+(* harness helper: the two extreme clocks of a login bracketed by the readings t0 <= t1 the driver
+   took before and after the dispatch (earliest / latest expiry the reply can carry) *)
 Definition clk_lo (t0 t1 : Z) : clock := mkClk t0 t0 t0.
-Definition clk_hi_restricted (t0 t1 : Z) : clock := mkClk t0 t0 t1.
-Definition clk_hi_full (t0 t1 : Z) : clock := mkClk t1 t1 t1.
+Definition clk_hi (t0 t1 : Z) : clock := mkClk t0 t0 t1.
